@@ -92,7 +92,7 @@ impl Model {
         }
         Ok(self.tree.children(id))
     }
-    fn register(&mut self, k: &Key, deps: BTreeSet<Dep>) {
+    pub fn register(&mut self, k: &Key, deps: BTreeSet<Dep>) {
         for d in &deps {
             self.nodes.insert(d.clone());
         }
